@@ -1,6 +1,6 @@
 (* C04 Watch runs once after its condition holds; Alarm re-arms. Statements only. *)
 From Coq Require Import ZArith List Bool Arith.
-From OP Require Import lib.Obs model.Interp model.InterpRun model.C02 model.C04 proofs.Interp_inv proofs.C05_proofs proofs.Interp_fields proofs.C02_proofs.
+From OP Require Import lib.Obs model.Interp model.InterpRun model.C02 model.C04 proofs.Interp_inv proofs.C05_proofs proofs.Interp_fields proofs.C02_proofs model.C05 proofs.C05_pending.
 Import ListNotations.
 Open Scope Z_scope.
 
@@ -25,6 +25,21 @@ Theorem C04_watch_body_lines_start_once : forall p ts main s now m,
          (states p main s now ts).
 Proof. intros p ts. exact (run_monotone p ts). Qed.
 Print Assumptions C04_watch_body_lines_start_once.
+
+(* "Neither runs after the block that contains it has ended": after EVERY tick of EVERY run no Watch / Alarm whose block has
+   ended has a handler left in the interrupt map (C05's theorem, restated for this clause): its condition is never
+   evaluated and its body never entered again. (The lines of a body that was already running when the block ended stop at
+   the next line: _visit_children tests the ended block before every child -- decided by the monitor, below.) *)
+Theorem C04_no_handler_left_after_the_block_ended : forall p ts, C05.tree_ok_b p = true ->
+  Forall (fun v => forall m, In m (v_ints v) ->
+                   existsb (fun a => is_block p a && block_ended (C05.vst v a)) (ancestors p m) = false)
+         (InterpRun.run (p, ts)).
+Proof.
+  intros p ts H. pose proof (no_pending_always p (tree_ok_tree p H) ts) as F.
+  eapply Forall_impl; [|exact F]. intros v Hv m Hm. unfold pending_ok, no_pending_in_ended in Hv.
+  rewrite forallb_forall in Hv. specialize (Hv m Hm). now apply negb_true_iff in Hv.
+Qed.
+Print Assumptions C04_no_handler_left_after_the_block_ended.
 
 (* PARTIAL. Decided by the Coq monitor on the real interpreter: a body line starts only while its Watch / Alarm is
    activated; a Watch outside alarm bodies never loses its activation; nothing of a body starts after the enclosing block
